@@ -70,6 +70,8 @@ func c01Solo(c *mon.Ctx) {
 					for _, k := range []corpus.Kind{corpus.Cert, corpus.CRL, corpus.OCSP} {
 						if idxs := W.ByKind[k]; len(idxs) > 0 {
 							c01Judge(c, W.Objs[idxs[len(idxs)/3]], regCfg{lint.GlobalRegistry(), "global, " + when})
+							// the same registry reached WITHOUT naming it (nil registry argument / no registry argument)
+							c01Judge(c, W.Objs[idxs[len(idxs)/3]], regCfg{nil, "nil registry argument, " + when})
 						}
 					}
 				}
